@@ -36,16 +36,21 @@ VARIABLES done,      \* sequence of steps executed
           ruleW,     \* -1: rule not yet expanded; else the width its flat mask was interpreted with
           ruleAt,    \* nrand when the rule was expanded
           exprW,     \* -1 / captured width of the expression object
-          exprBad    \* an operator combined the expression with a wider one without padding
-vars == <<done, nrand, depW, ruleW, ruleAt, exprW, exprBad>>
+          exprBad,   \* an operator combined the expression with a wider one without padding
+          illegal    \* the last step was an adapt() on a rule that had already been used: it must raise, the history ends
+vars == <<done, nrand, depW, ruleW, ruleAt, exprW, exprBad, illegal>>
 
 DoneSet == {done[i] : i \in 1..Len(done)}
 Enabled(s) == s \notin DoneSet /\ \A p \in Before : p[2] = s => p[1] \in DoneSet
 
-Init == done = <<>> /\ nrand = 0 /\ depW = -1 /\ ruleW = -1 /\ ruleAt = -1 /\ exprW = -1 /\ exprBad = FALSE
+Init == done = <<>> /\ nrand = 0 /\ depW = -1 /\ ruleW = -1 /\ ruleAt = -1 /\ exprW = -1 /\ exprBad = FALSE /\ illegal = FALSE
 
+\* C13: "declaring adaptation after the rule was used" is illegal - the rule's expansion (DecRule.roaffine) exists from its
+\* first use on, also when the rule had no adaptation yet (OptionalUses: a use no later step depends on, e.g. z*y or y + 0)
 Do(s) ==
+    /\ ~illegal
     /\ Enabled(s)
+    /\ illegal' = (s \in AdaptSteps /\ ruleW # -1)
     /\ done' = Append(done, s)
     /\ nrand' = IF s \in DOMAIN RvarSteps THEN nrand + RvarSteps[s] ELSE nrand
     /\ depW' = IF s \in AdaptSteps /\ depW = -1 THEN nrand
@@ -59,7 +64,7 @@ Do(s) ==
 Next == \E s \in Steps : Do(s)
 Spec == Init /\ [][Next]_vars
 
-Complete == DoneSet = Steps
+Complete == illegal \/ DoneSet = Steps
 \* C13 / C09: the flat dependency mask is read at the width of the layout it is used in
 MaskAligned == ruleW # -1 => ruleW = ruleAt
 \* C05 / C09: an expression object means the same after the layout grew
@@ -67,6 +72,6 @@ ExprAligned == ~exprBad
 \* every legal order ends (no deadlock before completion)
 Progress == ~Complete => \E s \in Steps : Enabled(s)
 
-Export == Complete => PrintT(ToJson([order |-> done, lateRule |-> (depW # -1 /\ \E i \in 1..Len(done) : done[i] \in DOMAIN RvarSteps /\ \E j \in 1..(i-1) : done[j] \in AdaptSteps),
+Export == Complete => PrintT(ToJson([order |-> done, illegal |-> illegal, lateRule |-> (depW # -1 /\ \E i \in 1..Len(done) : done[i] \in DOMAIN RvarSteps /\ \E j \in 1..(i-1) : done[j] \in AdaptSteps),
                                      lateExpr |-> (\E i \in 1..Len(done) : done[i] \in DOMAIN RvarSteps /\ \E j \in 1..(i-1) : done[j] = ExprMake)]))
 =============================================================================
